@@ -173,5 +173,44 @@ Hostile(T, env, f) ==
     [] T.t = "deco"  -> Hostile(T.a, env, f)
     [] OTHER -> {}
 
-Probe(T, env, fuel, cap) == Take(Cand(T, env, fuel), cap) \cup AtomPool \cup Take(Hostile(T, env, fuel), 16)
+\* Single deep faults are never subject to the cap either: values that are members of T except for ONE fault at some position,
+\* at any depth, placed after a valid sibling where the container has several entries (second element of an array, second
+\* entry of a Map / Set, an index-signature key after the declared ones), plus one double fault per object (first and last
+\* property).  They exercise the path bookkeeping of reportDecodeError / parse (C12, C03) at positions the capped
+\* one-at-a-time variations of Cand may not reach.
+Bad1(T, env, f) == Take({c \in Cand(T, env, f) : M3(c, T, env, {}, FALSE) = "F"}, 1)
+Mem1(T, env, f) == Take(Members(T, env, f), 1)
+RECURSIVE Faults(_, _, _)
+Faults(T, env, f) ==
+  CASE T.t \in {"prim", "lit", "tpl", "sfmt", "nfmt", "ta"} -> Bad1(T, env, f)
+    [] T.t = "arr"   -> {VArr(<<x>>) : x \in Faults(T.e, env, f)}
+                        \cup {VArr(<<m, x>>) : m \in Mem1(T.e, env, f), x \in Faults(T.e, env, f)}
+    [] T.t = "tuple" -> LET n == Len(T.es)
+                            base == IF \A i \in 1..n : Mem1(T.es[i], env, f) # {}
+                                    THEN {[i \in 1..n |-> CHOOSE m \in Mem1(T.es[i], env, f) : TRUE]} ELSE {}
+                        IN UNION { UNION { {VArr([b EXCEPT ![i] = x]) : x \in Faults(T.es[i], env, f)} : i \in 1..n } : b \in base }
+                           \cup (IF T.r = <<>> THEN {} ELSE
+                                 UNION { {VArr(b \o <<m, x>>) : m \in Mem1(T.r[1], env, f), x \in Faults(T.r[1], env, f)} : b \in base })
+    [] T.t = "obj"   -> LET n == Len(T.ps)
+                            base == IF \A i \in 1..n : Mem1(T.ps[i].ty, env, f) # {}
+                                    THEN {[i \in 1..n |-> P(T.ps[i].key, CHOOSE m \in Mem1(T.ps[i].ty, env, f) : TRUE)]} ELSE {}
+                            fl(i) == Faults(T.ps[i].ty, env, f)
+                        IN UNION { UNION { {VObj(SetAt(b, i, P(T.ps[i].key, x))) : x \in fl(i)} : i \in 1..n } : b \in base }
+                           \cup UNION { {VObj(SetAt(SetAt(b, 1, P(T.ps[1].key, x)), n, P(T.ps[n].key, y))) : x \in Take(fl(1), 1), y \in Take(fl(n), 1)}
+                                         : b \in {b \in base : n >= 2} }
+                           \cup (IF T.ix = <<>> THEN {} ELSE
+                                 UNION { {VObj(b \o <<P("zk1", m), P("zk2", x)>>) : m \in Mem1(T.ix[1].vt, env, f), x \in Faults(T.ix[1].vt, env, f)}
+                                         : b \in base })
+    [] T.t = "map"   -> {VMap(<<E(VStr("k1"), m), E(VStr("k2"), x)>>) : m \in Mem1(T.vt, env, f), x \in Faults(T.vt, env, f)}
+                        \cup {VMap(<<E(VStr("k1"), x), E(VStr("k2"), m)>>) : m \in Mem1(T.vt, env, f), x \in Faults(T.vt, env, f)}
+                        \cup {VMap(<<E(km, m), E(x, m)>>) : km \in Mem1(T.kt, env, f), m \in Mem1(T.vt, env, f), x \in Faults(T.kt, env, f)}
+    [] T.t = "set"   -> {VSet(<<m, x>>) : m \in Mem1(T.e, env, f), x \in Faults(T.e, env, f)}
+    [] T.t = "union" -> {x \in UNION {Faults(T.ms[i], env, f) : i \in DOMAIN T.ms} : M3(x, T, env, {}, FALSE) = "F"}
+    [] T.t = "inter" -> UNION {Faults(b, env, f) : b \in Take(Branches(T, env), 3)}
+    [] T.t = "ref"   -> IF f = 0 THEN {} ELSE Faults(Lookup(env, T.n), env, f - 1)
+    [] T.t = "deco"  -> Faults(T.a, env, f)
+    [] T.t = "app"   -> IF f = 0 THEN {} ELSE Faults(Instantiate(env, T.n, T.args), env, f - 1)
+    [] OTHER -> {}
+
+Probe(T, env, fuel, cap) == Take(Cand(T, env, fuel), cap) \cup AtomPool \cup Take(Hostile(T, env, fuel), 16) \cup Take(Faults(T, env, fuel), 40)
 =============================================================================
